@@ -19,7 +19,7 @@ PROPERTY = "C03"
 LEVEL = "exploration"
 RULE = ("for each of the catalogued functions with a structure: values built from an independent parse of the structure "
         "(records as dicts or positional lists, open lists of length 0/1/2/7/256, every allowed alternative type of each "
-        "data item forced with typed wrappers, item lengths 0/1/limit-1/limit) plus plain-Python-value variants; the "
+        "data item forced with typed wrappers, item lengths 0/1/limit-1/limit) plus plain-Python-value variants (incl. doubles wherever F8 is allowed); public flag attributes of class and object; the "
         "catalogue consistency sub-check enumerates all catalogued functions and all 128x256 (S,F) lookups; distinct by "
         "(function, reference body, input style); non-trivial when the body is non-empty")
 ASSUMPTIONS = ["lib/e5ref.py is the E5 reference", "fixed-type data items take plain Python values, multi-format items take "
